@@ -45,6 +45,8 @@ def var_of(n):
         return s.decl_id
     if s.k == 'MemberExpr' and s.decl_id is not None and s.c and s.c[0].strip().k == 'CXXThisExpr':
         return s.decl_id
+    if s.k == 'CallExpr' and s.callee and s.callee['g'] in ('std::move', 'std::forward', 'std::as_const') and len(s.args()) == 1:
+        return var_of(s.args()[0])      # the same object, as an xvalue / const view
     return None
 
 
